@@ -96,7 +96,7 @@ func verifC10Run(rt *rapid.T, c *kit.Case, snapshotDir func() string) {
 	defer fx.Close()
 
 	qsize := rapid.IntRange(0, 2).Draw(rt, "pruningQueueSize")
-	s := verifSBNewSim(verifSBRapidReporter{rt: rt, c: c}, fx, verifSBNewGen(rt, 3, 30), qsize, false)
+	s := verifSBNewSim(verifSBRapidReporter{rt: rt, c: c}, fx, verifSBNewGen(rt, 4, 30), qsize, false)
 	s.asyncBlocking = true
 
 	// state of 3..30 accounts, about a third with data tries of 1..7 keys
@@ -104,7 +104,7 @@ func verifC10Run(rt *rapid.T, c *kit.Case, snapshotDir func() string) {
 	nGen := rapid.IntRange(2, len(s.g.Addrs)-1).Draw(rt, "genesisAccounts")
 	for i := 1; i <= nGen; i++ {
 		content := &verifSBAcc{Nonce: uint64(i % 3), Balance: int64(10 * i), Storage: map[string]string{}}
-		if rapid.IntRange(0, 2).Draw(rt, "withStorage") == 0 {
+		if rapid.IntRange(0, 1).Draw(rt, "withStorage") == 0 {
 			content = s.g.genContent(rt, true)
 		}
 		genesis = append(genesis, verifSBTx{Ops: []verifSBOp{{Kind: "create", Addr: i, Content: content}}})
@@ -133,7 +133,7 @@ func verifC10Run(rt *rapid.T, c *kit.Case, snapshotDir func() string) {
 	nonTrivial := false
 	for round := 0; round < rounds; round++ {
 		// blocks before the request: some final, some not (those can be finalized or rolled back in the burst)
-		for i, n := 0, rapid.IntRange(0, 4).Draw(rt, "blocksBefore"); i < n; i++ {
+		for i, n := 0, rapid.IntRange(1, 4).Draw(rt, "blocksBefore"); i < n; i++ {
 			if s.unfinalized() < 4 {
 				s.execBlock(s.g.genBlock(rt, s.cur, 3), "block")
 			}
@@ -192,8 +192,17 @@ func verifC10Run(rt *rapid.T, c *kit.Case, snapshotDir func() string) {
 		// burst, without waiting: cheap prune calls first (they are the ones that have to land inside the
 		// snapshot window), then commits
 		commitsDuring, prunesDuring := 0, 0
-		for i, n := 0, rapid.IntRange(0, 6).Draw(rt, "burst"); i < n; i++ {
-			switch rapid.SampledFrom([]string{"finalize", "finalize", "rollback", "block"}).Draw(rt, "burstEvent") {
+		for i, n := 0, rapid.IntRange(0, 8).Draw(rt, "burst"); i < n; i++ {
+			ev := rapid.SampledFrom([]string{"finalize", "finalize", "rollback", "block"}).Draw(rt, "burstEvent")
+			// the first two events are a commit and a prune call, so that both have a chance to land inside
+			// the snapshot window (which is short: small states)
+			if i == 0 {
+				ev = "block"
+			}
+			if i == 1 && ev == "block" {
+				ev = "finalize"
+			}
+			switch ev {
 			case "finalize":
 				if s.unfinalized() == 0 {
 					continue
@@ -233,8 +242,13 @@ func verifC10Run(rt *rapid.T, c *kit.Case, snapshotDir func() string) {
 
 		// oracle
 		sdb := fx.Tsm.GetSnapshotThatContainsHash(req.root.root)
+		servedByExistingDB := req.kind == "checkpoint" // checkpoints are written into the last snapshot database
+		if req.kind == "checkpoint" && sdb != nil && lastSnapshotDB == nil {
+			lastSnapshotDB = sdb // no snapshot yet: the checkpoint opened the first database
+		}
 		if req.kind == "snapshot" && sdb != nil {
 			if sdb == lastSnapshotDB {
+				servedByExistingDB = true
 				// takeSnapshot found the root in the last snapshot database (an earlier checkpoint put it there) and
 				// did nothing ("snapshot for rootHash already taken"): the request is served by that database, which
 				// keeps its class
@@ -250,9 +264,8 @@ func verifC10Run(rt *rapid.T, c *kit.Case, snapshotDir func() string) {
 				}
 			}
 		}
-		servedByLastDB := req.kind == "checkpoint" || sdb == lastSnapshotDB
 		keyKind := req.kind
-		if servedByLastDB && poisoned {
+		if servedByExistingDB && poisoned {
 			if verifSBKnown(verifC10KeyOlderSnapshot) {
 				if sdb != nil {
 					sdb.DecreaseNumReferences()
